@@ -166,3 +166,23 @@ Example C01_reducers_nonvacuous :
   acyclic no_std chain3 /\ update_unit_multiplier no_std no_log chain3 3 "c" = RValue 0%Z.
 Proof. exact RedProofs.chain3_acyclic. Qed.
 Print Assumptions C01_reducers_nonvacuous.
+
+(** The repair fixes/C01-units-cycle-guard.diff (hasUnitsCycle consulted by the public entry points): with the guard the
+    modelled reducer returns on EVERY environment ... *)
+Theorem C01_cycle_guard_terminates :
+  forall is_std std_log env n, guarded_multiplier is_std std_log env n <> ROutOfFuel.
+Proof. exact RedProofs.cycle_guard_terminates. Qed.
+Print Assumptions C01_cycle_guard_terminates.
+
+(** ... and on acyclic environments it is the unguarded function, value for value. *)
+Theorem C01_cycle_guard_transparent :
+  forall is_std std_log env, acyclic is_std env ->
+    forall n, guarded_multiplier is_std std_log env n = update_unit_multiplier is_std std_log env (S (length env)) n.
+Proof. exact RedProofs.cycle_guard_transparent. Qed.
+Print Assumptions C01_cycle_guard_transparent.
+
+Example C01_cycle_guard_two_cycle :
+  guarded_multiplier no_std no_log two_cycle "a" = RFalse /\ guarded_multiplier no_std no_log two_cycle "b" = RFalse
+  /\ has_units_cycle no_std chain3 "c" = false.
+Proof. exact RedProofs.cycle_guard_two_cycle. Qed.
+Print Assumptions C01_cycle_guard_two_cycle.
